@@ -8,7 +8,8 @@ Local Open Scope N_scope.
 
 Record a64_inst_row := { ai_rw : N; ai_flags : N }.
 Record a64_tables := { at_inst : list a64_inst_row; at_rwx : list (list N); at_elem_size : list N;
-                       at_consecutive : N (* InstDB::kInstFlagConsecutive *); at_real_id_mask : N (* InstIdParts::kRealId *) }.
+                       at_consecutive : N (* InstDB::kInstFlagConsecutive *); at_real_id_mask : N (* InstIdParts::kRealId *);
+                       at_tbl_ids : list N (* Inst::kIdTbl_v, kIdTbx_v *) }.
 
 (* AReg (Some (element type, element index)) = vector register with an element index, v1.s[2];
    AMem has_base has_index has_offset pre_or_post *)
@@ -57,6 +58,14 @@ Definition a64_query_rw_info (T : a64_tables) (id : N) (ops : list a64_operand) 
             set_w (set_r o (N.land (o_r o) access)) (N.land (o_w o) access)
         | _ => o
         end) 0 ops in
+  (* with fixes/C12-a64-tbl-tbx-register-list.patch: tbl/tbx vd, {vn, ...}, vm - operands 1 .. n-2 are a run led by operand 1 *)
+  let is_areg o := match o with AReg _ => true | _ => false end in
+  let outs :=
+    if negb (test (ai_flags row) (at_consecutive T) && Nat.ltb 2 n) && existsb (N.eqb real) (at_tbl_ids T) && Nat.ltb 3 n &&
+       forallb is_areg (firstn (n - 2) (skipn 1 ops)) then
+      mapi (fun i o => if Nat.eqb i 1 then set_clc o (u8 (N.of_nat (n - 2)))
+                       else if Nat.ltb 1 i && Nat.ltb i (n - 1) then add_flags o fConsecutive else o) 0 outs
+    else outs in
   Some {| i_flags := 0; i_rmfeat := 0; i_rf := 0; i_wf := 0; i_extra := op_zero; i_ops := outs |}.
 
 (* ------------------------------------------------------------------ register lists of the database *)
